@@ -235,6 +235,24 @@ class Executor:
     def panic(self, msg):
         raise PanicEvent(msg, list(self.call_stack))
 
+    def divmod(self, a, b):
+        """truncating division with a *symbolic* divisor: fresh q, r with the division lemma
+        a = q*b + r, |r| < |b|, sign(r) in {0, sign(a)}  (caller has excluded b == 0)"""
+        if is_conc(simp(b)) or (is_conc(a) and is_conc(b)):
+            return i_tdiv(a, b), i_trem(a, b)
+        a, b = zint(a), zint(b)
+        key = ('divmod', a.get_id(), b.get_id())
+        c = self.memo.get(key)
+        if c is not None:
+            return c
+        q = self.fresh('quot', 'Int')
+        r = self.fresh('rem', 'Int')
+        absb = z3.If(b >= 0, b, -b)
+        self.assume(a == q * b + r)
+        self.assume(z3.If(a >= 0, z3.And(r >= 0, r < absb), z3.And(r <= 0, -r < absb)))
+        self.memo[key] = (q, r)
+        return q, r
+
     def note_bound(self, text):
         self.bound_notes.add(text)
 
@@ -560,9 +578,9 @@ class Executor:
                 return wrap_int(r, ta)
             return r
         if op == 'Div':
-            return i_tdiv(x, y)
+            return self.divmod(x, y)[0]
         if op == 'Rem':
-            return i_trem(x, y)
+            return self.divmod(x, y)[1]
         if op == 'Eq':
             return self.lib.values_eq(self, x, y)
         if op == 'Ne':
